@@ -106,6 +106,7 @@ type State struct {
 	notes   []string
 	callN   map[string]int // callee short name -> count so far (for call-site obligations)
 	imprecise bool
+	dead      bool // the path ended inside a callee that does not return
 	epochAll  int
 	epochExt  int
 	allocCtr  Term // every object/region id known so far is below this
